@@ -151,8 +151,12 @@ CLAIMED['C19'] = dict(
          'UTF-8, empty, oversized) with loss, duplication, reordering and truncation, against the real UDPListener '
          'running in its own task on a simulated datagram socket. Every datagram sent must be a UTF-8 JSON object <= 508 '
          'bytes with the identity, a configured tcp port and a character-boundary prefix of the description; disabled '
-         'only if the identity alone does not fit; answers iff discovery request; alive after every datagram.',
-    note='Trusted: simulated UDP socket, constant firmware version. The budgeting clause is a pure function of the '
+         'only if the identity alone does not fit; answers iff discovery request; alive after every datagram. In part '
+         'of the runs the responder is started by the real Server.run: the TCP interfaces are bound on the '
+         'simulated network first (ports held by another listener for a while or for ever, real bind retries of '
+         'TCPServer), and every announced port must be one the node really accepts connections on and answers '
+         '*IDN? on.',
+    note='Trusted: simulated UDP socket, simulated socketserver base class, constant firmware version. The budgeting clause is a pure function of the '
          'strings; it is checked as a rider of the simulated runs.',
     design='6/C19')
 
